@@ -1,5 +1,5 @@
 (* ConvertProofs.v — C16: the conversion statements as compositions through canonical content. *)
-From Cassis Require Import Base Heap Schema Canon Reach JsonDoc Json JsonProofs JsonProofs2 JsonLoadProofs Convert ConvertWf ConvertInline.
+From Cassis Require Import Base Heap Schema Canon Reach JsonDoc Json JsonProofs JsonProofs2 JsonLoadProofs JsonWf JsonDocOk Convert ConvertWf ConvertInline.
 From Cassis Require Lex Xmi XmiDoc XmiProofs XmiDocOk XmiLoad XmiRt XmiRtProofs XmiRtTotal XmiRtTotalProofs.
 Open Scope Z_scope.
 
@@ -133,6 +133,17 @@ Proof.
   intros HL HS HW HT HD HV. destruct (wf_convb_parts s c1' HW) as (_ & _ & HJ & _).
   destruct (inline_outline_total s c1' HW) as (cc & x & HC & HX & HI). exists x. split; [exact HX|].
   rewrite <- HX. exact (xmi_json_xmi_given_outline L s mode c1 j c1' cc HL HS HJ HT HD HV HC (inline_outline_holds s c1' cc HW HC)).
+Qed.
+
+(* ... with the well-formedness of the written JSON document derived from the CAS (C02 json_doc_ok: JsonDocOk.doc_ok_save_json,
+   premise typed_jsonb): no premise about the document is left *)
+Theorem xmi_json_xmi_total L s mode c1 j c1' :
+  lex_ok L -> save_json L s mode c1 = Ok (j, c1') -> wf_convb s c1' = true -> typed_jsonb s c1' = true -> 0 < c_next_id c1 ->
+  initial_view_in c1' = true ->
+  exists x, Xmi.canon_xmi s c1' = Ok x /\ (do y <- load_json L s j ;; inline_of s y) = Ok x.
+Proof.
+  intros HL HS HW HTy HT HV. destruct (wf_convb_parts s c1' HW) as (_ & _ & HJ & HI & HR & _).
+  exact (xmi_json_xmi L s mode c1 j c1' HL HS HW HT (doc_ok_save_json L s mode c1 j c1' HL HS HJ HT HI HR HTy) HV).
 Qed.
 
 (* JSON -> CAS -> XMI -> CAS.  c1 is the CAS loaded first: its JSON view jv is what the JSON document j0 denotes.  x is
